@@ -166,7 +166,12 @@ std::string try_recover(EngineCfg const &ec, std::string const &config, FsImage 
   return why;
 }
 
+// how a failed state write showed up in the library (set by run_crash, appended to the features of a violation): the recorded finding
+// C11-FAILED-WRITE-ROTATED needs the failure to surface when the stream is closed
+std::string g_write_failure_features;
+
 void run_crash(J const &plan, RunResult &res, SimRun &sim) {
+  g_write_failure_features.clear();
   EngineCfg ec; std::string config; long T;
   scenario_from_json(plan.at("scenario"), ec, config, T);
   fs().set_chunk(0, (size_t)plan.at("scenario").at("chunk").as_int(0));
@@ -227,6 +232,14 @@ void run_crash(J const &plan, RunResult &res, SimRun &sim) {
     fs().journal_stop();
     add_steps(res, *e);
     fp = hash_recs(e->rec, fp);
+    {
+      bool at_close = false, before_close = false;
+      auto scan = [&](std::deque<std::string> const &lines) { for (auto const &l : lines) { if (l.find("in writing to and closing file") != std::string::npos) at_close = true; if (l.find("in writing restart file") != std::string::npos || l.find("in writing binary state") != std::string::npos) before_close = true; } };
+      scan(e->error_lines); scan(e->log_lines);
+      // (a failure while the state is being written also shows when that stream is closed: the earlier symptom names the case)
+      if (before_close) g_write_failure_features += "+write_failed_before_close";
+      else if (at_close) g_write_failure_features += "+write_failed_at_close";
+    }
   }
   res.fingerprint = fp;
   // replica state file: after the rename that first puts it in place, every crash image holds one of the complete contents
@@ -579,7 +592,7 @@ RunResult run(J const &plan) {
   std::string fk;
   for (auto const &op : plan.at("ops").a) for (auto const &f : op.at("faults").a) fk += "+fault_" + f.at("k").as_str();
   if (res.violation) res.features = mode + fk + (plan.at("scenario").has("config") ? "+" + config_features(plan.at("scenario").at("config").as_str()) : "") +
-                                    (plan.at("scenario").at("engine").at("binary_state").as_bool() ? "+binary" : "");
+                                    (plan.at("scenario").at("engine").at("binary_state").as_bool() ? "+binary" : "") + (mode == "crash" ? g_write_failure_features : std::string());
   sim.finish(res);
   return res;
 }
